@@ -22,6 +22,7 @@ var Registry = map[string]func(*core.Run){
 	"C18": C18,
 	"C19": C19,
 	"C20": C20,
+	"E2E": E2E,
 	"C04": C04,
 	"C05": C05,
 }
